@@ -21,6 +21,7 @@ type Node struct {
 	Embedded bool // the library's "embedded" flag: base kind of the field (element) type is struct
 	Impl     bool // the field is a Message / custom implementer (opaque payload)
 	ImplLen  int  // length of the payload handed to the implementer's Unmarshal
+	Sub      *TypeDesc // descriptor of the embedded message (IsMsg)
 }
 
 var ErrWire = errors.New("pgen: malformed wire data")
@@ -153,7 +154,17 @@ func ParseMessage(d *TypeDesc, b []byte, base int) ([]Node, error) {
 			if sub != nil && nd.Wire == 2 {
 				kids, err := ParseMessage(sub, b[nd.PayStart-base:nd.End-base], nd.PayStart)
 				if err == nil {
-					nd.IsMsg, nd.Kids = true, kids
+					nd.IsMsg, nd.Kids, nd.Sub = true, kids, sub
+					if nd.Label == "mapentry" {
+						for i := range kids {
+							switch kids[i].Num {
+							case 1:
+								kids[i].Label = "mapkey." + kids[i].Label
+							case 2:
+								kids[i].Label = "mapval." + kids[i].Label
+							}
+						}
+					}
 				}
 			}
 		}
@@ -381,4 +392,61 @@ func MapEntryLenBoundary(nodes []Node) bool {
 		}
 	})
 	return hit
+}
+
+// DescAt returns the struct descriptor of the message reached through path.
+func DescAt(top *TypeDesc, nodes []Node, path []int) *TypeDesc {
+	d := top
+	for _, i := range path {
+		if i >= len(nodes) || !nodes[i].IsMsg {
+			return nil
+		}
+		d = nodes[i].Sub
+		nodes = nodes[i].Kids
+	}
+	return d
+}
+
+// ReplaceAt returns base with base[start:end] replaced by repl. With fix, the
+// length prefixes of all embedded messages that enclose the edit are
+// recomputed (the result stays well-formed at the outer levels).
+func ReplaceAt(base []byte, nodes []Node, start, end int, repl []byte, fix bool) []byte {
+	out := make([]byte, 0, len(base)+len(repl)+16)
+	out = append(out, base[:start]...)
+	out = append(out, repl...)
+	out = append(out, base[end:]...)
+	if !fix {
+		return out
+	}
+	// enclosing message nodes, outermost first
+	var chain []*Node
+	level := nodes
+	for {
+		var next *Node
+		for i := range level {
+			nd := &level[i]
+			if nd.IsMsg && nd.PayStart <= start && end <= nd.End {
+				next = nd
+				break
+			}
+		}
+		if next == nil {
+			break
+		}
+		chain = append(chain, next)
+		level = next.Kids
+	}
+	delta := len(repl) - (end - start)
+	for i := len(chain) - 1; i >= 0; i-- { // innermost first: its header lies at the highest offset
+		nd := chain[i]
+		oldLen := nd.End - nd.PayStart
+		hdr := protowire.AppendVarint(nil, uint64(oldLen+delta))
+		nb := make([]byte, 0, len(out)+4)
+		nb = append(nb, out[:nd.ValStart]...)
+		nb = append(nb, hdr...)
+		nb = append(nb, out[nd.PayStart:]...)
+		delta += len(hdr) - (nd.PayStart - nd.ValStart)
+		out = nb
+	}
+	return out
 }
